@@ -60,6 +60,7 @@ def gen_case(rng, tier, direction=None, feats=None):
     d = direction or rng.choice(['fwd', 'bwd'])
     n = rng.randrange(1, 11 if tier == 'quick' else 26)
     ms_ok = rng.random() < 0.5
+    ms_parent = ms_ok and rng.random() < 0.25
     # contention mode (one case in four): most tasks on one resource, estimates that are fractions of a day's capacity, release
     # dates spread over a fortnight - the ledger is then interleaved (a day is left and booked again later) and days are shared
     contention = feats.get('contention', rng.random() < 0.25)
@@ -82,7 +83,8 @@ def gen_case(rng, tier, direction=None, feats=None):
             t['ms'] = True
         if d == 'fwd' and not contention and rng.random() < 0.2:
             t['min_start'] = (BASE_DAY + rng.randrange(-5, 30)) * DAY_US + rng.choice([0, 0, 6 * H])
-        cands = [j for j in range(i) if not tasks[j]['ms']]
+        # a task flagged milestone may get children too (one case in eight allows it): it is then a summary (C07's roll-up applies)
+        cands = [j for j in range(i) if not tasks[j]['ms'] or ms_parent]
         if cands and rng.random() < (0.2 if contention else 0.6):
             t['parent'] = rng.choice(cands)
         tasks.append(t)
@@ -261,7 +263,10 @@ def record(case, w, objs, others):
         rows.append([o.id, None if raw_parent is None else uid[id(raw_parent)], [uid[id(c)] for c in o.children],
                      [uid[id(p)] for p in o.predecessors], [uid[id(p)] for p in o.successors],
                      None if o.wbs is None else n + wbss.index(o.wbs)])
-    attrs = [[key_of(t['res']), t['ms'], t['min_start'], t['start'], t['end'], t['est'], t['spent']] for t in case['tasks']]
+    # the model's milestone flag is the *effective* one: flagged and childless (the schedulers treat a flagged task that has
+    # children as a summary)
+    has_child = set(t['parent'] for t in case['tasks'] if t['parent'] is not None)
+    attrs = [[key_of(t['res']), t['ms'] and i not in has_child, t['min_start'], t['start'], t['end'], t['est'], t['spent']] for i, t in enumerate(case['tasks'])]
     return {'fam': 'sched', 'dir': case['dir'], 'graph': {'t': rows}, 'w': n, 'attrs': attrs, 'balance': case['balance'],
             'defaultEst': case['defaultEst'], 'clock': case['clock'], 'bound': case['bound'],
             'resources': [[key_of(nm), ex] for nm, ex in case['resources']]}
